@@ -77,6 +77,8 @@ func configure(g *gen) {
 			{"handlers", "HandlersChain", "handlers", T{"opaque", "List Nat"}},
 			{"matches", "[]string", "matches_", tStrList},
 			{"start", "string", "start", tStr},
+			{"spath", "string", "spath", tStr},
+			{"regex", "*regexp.Regexp", "regex", T{"opaque", "Option Bytes"}}, // nil or the source text of the compiled regexp
 		}},
 	}
 	g.opaque["error"] = T{"opaque", "Bool"} // true = a non-nil error
@@ -113,6 +115,33 @@ func configure(g *gen) {
 			{Callee: "$.findAllowedMethods", Stmts: []string{"let %t := env.findAllowed s %1 %2", "s := %t.2"},
 				Value: "%t.1", T: tStrList},
 			{Callee: "$.stableRoutes[]", Value: "(env.stable s %1)", T: T{"opaque", "Option ρ"}},
+		}})
+	// parse_match.go / utils.go / route.go: pattern compilation.  `parseParamRoute` rewrites the route path step by step
+	// into the source text of the route's regexp.  Parameters: `findAll` (varRegex.FindAllString), `replacer`
+	// (strings.NewReplacer(olds/news...).Replace), `gv` (the package-level map globalVars as it stands),
+	// `mustCompile` (regexp.MustCompile: panics or not) and `numSubexp` ((*Regexp).NumSubexp of the compiled text).
+	// The compiled regexp is represented by its source text.
+	ppTypes := map[string]T{"*regexp.Regexp": {"opaque", "Option Bytes"}, "map[string]string": {"opaque", "List (Bytes × Bytes)"}}
+	add(FnSpec{Func: "checkAndParseOptional", Lean: "checkAndParseOptional",
+		Extra: []string{"(replacer : List Bytes → Bytes → Bytes)"},
+		Exts: []Ext{{Callee: "strings.NewReplacer(\"[\", \"(?:\", \"]\", \")?\").Replace",
+			Value: "(replacer [([0x5B] : Bytes), ([0x28, 0x3F, 0x3A] : Bytes), ([0x5D] : Bytes), ([0x29, 0x3F] : Bytes)] %1)", T: tStr}}})
+	add(FnSpec{Func: "getGlobalVar", Lean: "getGlobalVar", Extra: []string{"(gv : List (Bytes × Bytes))"}, Types: ppTypes,
+		Exts: []Ext{{Callee: "globalVars[]", Values: []string{"(GoRt.mapGet gv %1).1", "(GoRt.mapGet gv %1).2"}, Ts: []T{tStr, tBool}}}})
+	add(FnSpec{Recv: "Route", Func: "goodRegexString", Lean: "Route.goodRegexString", UseStructs: []string{"Route"}})
+	add(FnSpec{Recv: "Route", Func: "goodRegexGroups", Lean: "Route.goodRegexGroups", UseStructs: []string{"Route"}, Types: ppTypes,
+		Extra: []string{"(numSubexp : Option Bytes → Int)"},
+		Exts:  []Ext{{Callee: "$.regex.NumSubexp", Value: "(numSubexp $.regex)", T: tInt}}})
+	add(FnSpec{Recv: "Router", Func: "parseParamRoute", Lean: "Router.parseParamRoute", NoRecv: true, UseStructs: []string{"Route"}, Types: ppTypes,
+		MonadicIf: true, Hoist: true,
+		MutParams: []string{"route"}, RetExtra: []string{"route"}, RetExtraT: []string{"Route"},
+		Extra: []string{"(findAll : Bytes → List Bytes)", "(replacer : List Bytes → Bytes → Bytes)", "(gv : List (Bytes × Bytes))",
+			"(mustCompile : Bytes → Except Panic Unit)", "(numSubexp : Option Bytes → Int)"},
+		Exts: []Ext{
+			{Callee: "varRegex.FindAllString", Value: "(findAll %1)", T: tStrList},
+			{Callee: "regexp.MustCompile", Stmts: []string{"let _ ← mustCompile %1"}, Value: "(some %1)", T: T{"opaque", "Option Bytes"}, MayPanic: true},
+			{Callee: "strings.NewReplacer(rawVar...).Replace", Value: "(replacer rawVar %1)", T: tStr},
+			{Callee: "strings.NewReplacer(varRegex...).Replace", Value: "(replacer varRegex %1)", T: tStr},
 		}})
 	// parse_match.go: findAllowedMethods — the other methods under which the path matches.  The Go map used as a set
 	// is the list of its keys; the order in which `range` visits them is the parameter `ord`
